@@ -45,8 +45,25 @@ def standard_requests(rng, compact=False):
     out.append(("advanceBlockchain-partial", "v5",
                 {"command": "advanceBlockchain", "version": 5, "blocks": [h.hex() for h in hs],
                  "brothers": [[], []]}, dev(bo_plan={"stop_after": 1, "partial": True})))
+    # the device may end an advance with PARTIAL or SUCCESS at any point it likes: after the last block, right
+    # after the last brother of the last block, or before the announced count is exhausted
+    bros_last = [[], [gen.random_header(r2, 19)]]
+    out.append(("advanceBlockchain-partial-after-brother", "v5",
+                {"command": "advanceBlockchain", "version": 5, "blocks": [h.hex() for h in hs],
+                 "brothers": [[b.hex() for b in bl] for bl in bros_last]},
+                dev(bo_plan={"ask_brothers": {1}, "partial": True})))
+    out.append(("advanceBlockchain-partial-at-end", "v5",
+                {"command": "advanceBlockchain", "version": 5, "blocks": [h.hex() for h in hs],
+                 "brothers": [[], []]}, dev(bo_plan={"partial": True})))
+    out.append(("advanceBlockchain-success-early", "v5",
+                {"command": "advanceBlockchain", "version": 5, "blocks": [h.hex() for h in hs],
+                 "brothers": [[b.hex() for b in bl] for bl in bros]},
+                dev(bo_plan={"stop_after": 1, "ask_brothers": {0}})))
     out.append(("updateAncestorBlock", "v5",
                 {"command": "updateAncestorBlock", "version": 5, "blocks": [h.hex() for h in hs]}, dev()))
+    out.append(("updateAncestorBlock-success-early", "v5",
+                {"command": "updateAncestorBlock", "version": 5, "blocks": [h.hex() for h in hs]},
+                dev(bo_plan={"stop_after": 1})))
     out.append(("resetAdvanceBlockchain", "v5", {"command": "resetAdvanceBlockchain", "version": 5}, dev()))
     out.append(("blockchainState", "v5", {"command": "blockchainState", "version": 5}, dev()))
     out.append(("blockchainParameters", "v5", {"command": "blockchainParameters", "version": 5}, dev()))
@@ -64,7 +81,18 @@ def honest_transcript(mode, req, device_factory):
     """Run the request against the honest device and return (answers, observation)."""
     case = {"mode": mode, "kind": "ledger", "lines": [gen.line(req)], "device": device_factory()}
     obs = stack.run_case(case)
+    obs["device"] = case["device"]
     return list(obs["answers"]), obs
+
+
+def device_verdict(cmdname, d):
+    """The result code the DEVICE's own final report calls for (None when the simulator keeps no such
+    report for the command): 0 for total success, 1 for partial success."""
+    if cmdname in ("advanceBlockchain", "updateAncestorBlock"):
+        return {"success": 0, "partial": 1}.get(getattr(d, "final_report", None))
+    if cmdname == "sign":
+        return 0 if getattr(d, "reported_success", False) else None
+    return None
 
 
 BRINGUP_SIGNER = [("D", bytes([0x80, 1, 5, 4, 1])),            # IS_ONBOARD: onboarded
